@@ -338,75 +338,136 @@ pub proof fn lemma_round_div_big(num: int, den: int, mode: RoundingMode)
 }
 
 // ---- position of the most significant bit (bit-vector facts)
-/// r is the index of the most significant set bit of i
+/// r is the index of the most significant set bit of i: 2^r <= i < 2^(r+1)
+#[verifier::opaque]
 pub open spec fn is_msb(i: u128, r: int) -> bool {
     0 <= r < 128 && (i >> (r as u128)) == 1
 }
 
-/// a binary search step with a k-bit upper half: the upper half is non-zero iff the mask test says so
+/// binary search step on a number below 2^128: the mask test tells whether the upper 64 bits are non-zero
 pub broadcast proof fn lemma_msb_step64(w: u128)
     ensures
-        (#[trigger] (w & 0xffffffffffffffff0000000000000000u128) != 0) ==> ((w >> 64) != 0 && (w >> 64) < 0x1_0000_0000_0000_0000u128),
-        (w & 0xffffffffffffffff0000000000000000u128) == 0 ==> w < 0x1_0000_0000_0000_0000u128,
+        (#[trigger] (w & 0xffffffffffffffff0000000000000000u128) != 0) ==> ((w >> 64) != 0 && (w >> 64) < 0x10000000000000000u128),
+        (w & 0xffffffffffffffff0000000000000000u128) == 0 ==> w < 0x10000000000000000u128,
 {
-    assert(((w & 0xffffffffffffffff0000000000000000u128) != 0) ==> ((w >> 64) != 0 && (w >> 64) < 0x1_0000_0000_0000_0000u128)) by (bit_vector);
-    assert((w & 0xffffffffffffffff0000000000000000u128) == 0 ==> w < 0x1_0000_0000_0000_0000u128) by (bit_vector);
+    assert((((w & 0xffffffffffffffff0000000000000000u128) != 0) ==> ((w >> 64) != 0 && (w >> 64) < 0x10000000000000000u128))) by (bit_vector);
+    assert(((w & 0xffffffffffffffff0000000000000000u128) == 0 ==> w < 0x10000000000000000u128)) by (bit_vector);
 }
 
+/// the most significant bit of w >> 64, if below position 64, is 64 positions higher in w
+pub broadcast proof fn lemma_msb_up64(w: u128, r: int)
+    requires #[trigger] is_msb(w >> 64, r), r < 64
+    ensures is_msb(w, r + 64)
+{
+    reveal(is_msb);
+    let b = r as u128;
+    assert(b < 64 && ((w >> 64) >> b) == 1 ==> (w >> add(64, b)) == 1) by (bit_vector);
+}
+
+/// binary search step on a number below 2^64: the mask test tells whether the upper 32 bits are non-zero
 pub broadcast proof fn lemma_msb_step32(w: u128)
-    requires w < 0x1_0000_0000_0000_0000u128
+    requires w < 0x10000000000000000u128
     ensures
-        (#[trigger] (w & 0x0000000000000000ffffffff00000000u128) != 0) ==> ((w >> 32) != 0 && (w >> 32) < 0x1_0000_0000u128),
-        (w & 0x0000000000000000ffffffff00000000u128) == 0 ==> w < 0x1_0000_0000u128,
+        (#[trigger] (w & 0x0000000000000000ffffffff00000000u128) != 0) ==> ((w >> 32) != 0 && (w >> 32) < 0x100000000u128),
+        (w & 0x0000000000000000ffffffff00000000u128) == 0 ==> w < 0x100000000u128,
 {
-    assert(w < 0x1_0000_0000_0000_0000u128 ==> (((w & 0x0000000000000000ffffffff00000000u128) != 0) ==> ((w >> 32) != 0 && (w >> 32) < 0x1_0000_0000u128))) by (bit_vector);
-    assert(w < 0x1_0000_0000_0000_0000u128 ==> ((w & 0x0000000000000000ffffffff00000000u128) == 0 ==> w < 0x1_0000_0000u128)) by (bit_vector);
+    assert(w < 0x10000000000000000u128 ==> (((w & 0x0000000000000000ffffffff00000000u128) != 0) ==> ((w >> 32) != 0 && (w >> 32) < 0x100000000u128))) by (bit_vector);
+    assert(w < 0x10000000000000000u128 ==> ((w & 0x0000000000000000ffffffff00000000u128) == 0 ==> w < 0x100000000u128)) by (bit_vector);
 }
 
+/// the most significant bit of w >> 32, if below position 32, is 32 positions higher in w
+pub broadcast proof fn lemma_msb_up32(w: u128, r: int)
+    requires #[trigger] is_msb(w >> 32, r), r < 32
+    ensures is_msb(w, r + 32)
+{
+    reveal(is_msb);
+    let b = r as u128;
+    assert(b < 32 && ((w >> 32) >> b) == 1 ==> (w >> add(32, b)) == 1) by (bit_vector);
+}
+
+/// binary search step on a number below 2^32: the mask test tells whether the upper 16 bits are non-zero
 pub broadcast proof fn lemma_msb_step16(w: u128)
-    requires w < 0x1_0000_0000u128
+    requires w < 0x100000000u128
     ensures
-        (#[trigger] (w & 0x000000000000000000000000ffff0000u128) != 0) ==> ((w >> 16) != 0 && (w >> 16) < 0x1_0000u128),
-        (w & 0x000000000000000000000000ffff0000u128) == 0 ==> w < 0x1_0000u128,
+        (#[trigger] (w & 0x000000000000000000000000ffff0000u128) != 0) ==> ((w >> 16) != 0 && (w >> 16) < 0x10000u128),
+        (w & 0x000000000000000000000000ffff0000u128) == 0 ==> w < 0x10000u128,
 {
-    assert(w < 0x1_0000_0000u128 ==> (((w & 0x000000000000000000000000ffff0000u128) != 0) ==> ((w >> 16) != 0 && (w >> 16) < 0x1_0000u128))) by (bit_vector);
-    assert(w < 0x1_0000_0000u128 ==> ((w & 0x000000000000000000000000ffff0000u128) == 0 ==> w < 0x1_0000u128)) by (bit_vector);
+    assert(w < 0x100000000u128 ==> (((w & 0x000000000000000000000000ffff0000u128) != 0) ==> ((w >> 16) != 0 && (w >> 16) < 0x10000u128))) by (bit_vector);
+    assert(w < 0x100000000u128 ==> ((w & 0x000000000000000000000000ffff0000u128) == 0 ==> w < 0x10000u128)) by (bit_vector);
 }
 
+/// the most significant bit of w >> 16, if below position 16, is 16 positions higher in w
+pub broadcast proof fn lemma_msb_up16(w: u128, r: int)
+    requires #[trigger] is_msb(w >> 16, r), r < 16
+    ensures is_msb(w, r + 16)
+{
+    reveal(is_msb);
+    let b = r as u128;
+    assert(b < 16 && ((w >> 16) >> b) == 1 ==> (w >> add(16, b)) == 1) by (bit_vector);
+}
+
+/// binary search step on a number below 2^16: the mask test tells whether the upper 8 bits are non-zero
 pub broadcast proof fn lemma_msb_step8(w: u128)
-    requires w < 0x1_0000u128
+    requires w < 0x10000u128
     ensures
         (#[trigger] (w & 0x0000000000000000000000000000ff00u128) != 0) ==> ((w >> 8) != 0 && (w >> 8) < 0x100u128),
         (w & 0x0000000000000000000000000000ff00u128) == 0 ==> w < 0x100u128,
 {
-    assert(w < 0x1_0000u128 ==> (((w & 0x0000000000000000000000000000ff00u128) != 0) ==> ((w >> 8) != 0 && (w >> 8) < 0x100u128))) by (bit_vector);
-    assert(w < 0x1_0000u128 ==> ((w & 0x0000000000000000000000000000ff00u128) == 0 ==> w < 0x100u128)) by (bit_vector);
+    assert(w < 0x10000u128 ==> (((w & 0x0000000000000000000000000000ff00u128) != 0) ==> ((w >> 8) != 0 && (w >> 8) < 0x100u128))) by (bit_vector);
+    assert(w < 0x10000u128 ==> ((w & 0x0000000000000000000000000000ff00u128) == 0 ==> w < 0x100u128)) by (bit_vector);
 }
 
-/// last step (4-bit halves) together with the position of the top bit of a non-zero 4-bit number
-pub open spec fn nibble_msb(v: u128) -> bool {
-    &&& 0 < v < 16
-    &&& v >= 8 ==> (v >> 3) == 1
-    &&& 4 <= v < 8 ==> (v >> 2) == 1
-    &&& 2 <= v < 4 ==> (v >> 1) == 1
-    &&& v == 1 ==> (v >> 0) == 1
+/// the most significant bit of w >> 8, if below position 8, is 8 positions higher in w
+pub broadcast proof fn lemma_msb_up8(w: u128, r: int)
+    requires #[trigger] is_msb(w >> 8, r), r < 8
+    ensures is_msb(w, r + 8)
+{
+    reveal(is_msb);
+    let b = r as u128;
+    assert(b < 8 && ((w >> 8) >> b) == 1 ==> (w >> add(8, b)) == 1) by (bit_vector);
 }
 
+/// binary search step on a number below 2^8: the mask test tells whether the upper 4 bits are non-zero
 pub broadcast proof fn lemma_msb_step4(w: u128)
+    requires w < 0x100u128
+    ensures
+        (#[trigger] (w & 0x000000000000000000000000000000f0u128) != 0) ==> ((w >> 4) != 0 && (w >> 4) < 0x10u128),
+        (w & 0x000000000000000000000000000000f0u128) == 0 ==> w < 0x10u128,
+{
+    assert(w < 0x100u128 ==> (((w & 0x000000000000000000000000000000f0u128) != 0) ==> ((w >> 4) != 0 && (w >> 4) < 0x10u128))) by (bit_vector);
+    assert(w < 0x100u128 ==> ((w & 0x000000000000000000000000000000f0u128) == 0 ==> w < 0x10u128)) by (bit_vector);
+}
+
+/// the most significant bit of w >> 4, if below position 4, is 4 positions higher in w
+pub broadcast proof fn lemma_msb_up4(w: u128, r: int)
+    requires #[trigger] is_msb(w >> 4, r), r < 4
+    ensures is_msb(w, r + 4)
+{
+    reveal(is_msb);
+    let b = r as u128;
+    assert(b < 4 && ((w >> 4) >> b) == 1 ==> (w >> add(4, b)) == 1) by (bit_vector);
+}
+
+/// most significant bit of a non-zero 4-bit number
+pub broadcast proof fn lemma_msb_nibble(w: u128)
     requires 0 < w < 0x100u128
     ensures
-        (#[trigger] (w & 0x000000000000000000000000000000f0u128) != 0) ==> nibble_msb(w >> 4),
-        (w & 0x000000000000000000000000000000f0u128) == 0 ==> nibble_msb(w),
+        (#[trigger] (w & 0x000000000000000000000000000000f0u128)) == 0 ==> w < 16 && is_msb(w, if w >= 8 { 3int } else if w >= 4 { 2 } else if w >= 2 { 1 } else { 0 }),
+        (w & 0x000000000000000000000000000000f0u128) != 0 ==> ({ let v = w >> 4; is_msb(v, if v >= 8 { 3int } else if v >= 4 { 2 } else if v >= 2 { 1 } else { 0 }) }),
 {
-    let v = w >> 4;
-    assert(0 < w < 0x100u128 ==> (((w & 0x000000000000000000000000000000f0u128) != 0) ==> (0 < (w >> 4) < 16))) by (bit_vector);
+    reveal(is_msb);
     assert(0 < w < 0x100u128 ==> ((w & 0x000000000000000000000000000000f0u128) == 0 ==> w < 16)) by (bit_vector);
+    assert(0 < w < 0x100u128 ==> ((w & 0x000000000000000000000000000000f0u128) != 0 ==> 0 < (w >> 4) < 16)) by (bit_vector);
     lemma_nibble(w);
-    lemma_nibble(v);
+    lemma_nibble(w >> 4);
 }
 
 pub proof fn lemma_nibble(v: u128)
-    ensures 0 < v < 16 ==> nibble_msb(v)
+    ensures
+        8 <= v < 16 ==> (v >> 3) == 1,
+        4 <= v < 8 ==> (v >> 2) == 1,
+        2 <= v < 4 ==> (v >> 1) == 1,
+        v == 1 ==> (v >> 0) == 1,
 {
     assert(8 <= v < 16 ==> (v >> 3) == 1) by (bit_vector);
     assert(4 <= v < 8 ==> (v >> 2) == 1) by (bit_vector);
@@ -414,14 +475,8 @@ pub proof fn lemma_nibble(v: u128)
     assert(v == 1 ==> (v >> 0) == 1) by (bit_vector);
 }
 
-/// shifting right twice is shifting by the sum
-pub broadcast proof fn lemma_shr_shr(x: u128, a: u128, b: u128)
-    requires a + b < 128
-    ensures #[trigger] ((x >> a) >> b) == x >> ((a + b) as u128)
-{
-    assert(a < 128 && b < 128 && add(a, b) < 128 ==> ((x >> a) >> b) == x >> add(a, b)) by (bit_vector);
+pub broadcast group group_msb {
+    lemma_msb_step64, lemma_msb_step32, lemma_msb_step16, lemma_msb_step8, lemma_msb_step4,
+    lemma_msb_up64, lemma_msb_up32, lemma_msb_up16, lemma_msb_up8, lemma_msb_up4, lemma_msb_nibble,
 }
 
-pub broadcast group group_msb {
-    lemma_msb_step64, lemma_msb_step32, lemma_msb_step16, lemma_msb_step8, lemma_msb_step4, lemma_shr_shr,
-}
